@@ -174,7 +174,7 @@ func evalC14(c C14Case) (*h.Finding, string) {
 	leak, pan := h.Bubble(func() {
 		h.WithRealServer(cfg, be, c.TLS, func(cs *h.CS) {
 			cl := cs.Client
-			if c.Route != "" && greetRefused == 0 {
+			if c.Route != "" && c.Route != "same-pointer" && greetRefused == 0 {
 				if c.Route == "auth-second" {
 					if preErr = cl.Auth(goodClient{}); preErr != nil {
 						return
@@ -191,6 +191,30 @@ func evalC14(c C14Case) (*h.Finding, string) {
 					return
 				}
 				n0 = len(be.Trace())
+			}
+			if c.Route == "same-pointer" && mo != nil && mo.Auth != nil {
+				// a caller that keeps ONE MailOptions value (and one string behind Auth) for all its messages and only
+				// changes the string: the first message goes out with another identity, no Reset in between
+				want := *mo.Auth
+				authVar := "prev@p.example"
+				mo.Auth = &authVar
+				if preErr = cl.Mail("ok@prev.example", mo); preErr != nil {
+					return
+				}
+				if preErr = cl.Rcpt("ok@prevr.example", nil); preErr != nil {
+					return
+				}
+				w, err := cl.Data()
+				if err != nil {
+					preErr = err
+					return
+				}
+				w.Write([]byte("first message\r\n"))
+				if preErr = w.Close(); preErr != nil {
+					return
+				}
+				n0 = len(be.Trace())
+				authVar = want
 			}
 			mailErr = cl.Mail(from, mo)
 			if mailErr != nil {
@@ -341,7 +365,7 @@ func C14(tier string) int {
 		strLen, asciiLen = 4, 3
 		wireScalarsTo = 0x10ffff
 	}
-	run.Rule = fmt.Sprintf("(a) codec pairs called directly: decodeXtext(encodeXtext(s)) for ALL strings of <=%d octets over the 128 ASCII octets; utf-8-addr-xtext and -unitext pairs for EVERY Unicode scalar value individually; (b) over the wire (real Client.Mail/Rcpt -> real server, all extensions on, SMTPUTF8 on/off): ALL strings of <=%d symbols over %q as EnvelopeID, Auth (with '@d.example' appended), ORCPT rfc822 and ORCPT utf-8; every scalar up to U+%X (and every UTF-8 length / surrogate boundary +-2) inside a utf-8 ORCPT; (c) option subsets: all 2^4 NOTIFY subsets in two orders, RET, SIZE {0,1,2^31}, SMTPUTF8, REQUIRETLS over implicit TLS, RRVS times with zones and with fractions of a second, a backend that refuses the first greeting with one of nine codes, Auth nil / empty / mailbox, address forms; every option subset also as the SECOND transaction of a connection (after a transaction with other values and Reset, with and without a successful AUTH before it) and, for SIZE, against a server whose limit is exactly that size or one more. Distinct by construction; non-trivial = value in the judged domain (printable ASCII; for utf-8 ORCPT also DEL and non-ASCII; for Auth mailbox-shaped ASCII). Oracle: options seen by Session.Mail/Rcpt == options given; 'refused locally by the client' is fine, 'refused by the server' or 'different' is a violation inside the judged domain.", asciiLen, strLen, c14Alphabet, wireScalarsTo)
+	run.Rule = fmt.Sprintf("(a) codec pairs called directly: decodeXtext(encodeXtext(s)) for ALL strings of <=%d octets over the 128 ASCII octets; utf-8-addr-xtext and -unitext pairs for EVERY Unicode scalar value individually; (b) over the wire (real Client.Mail/Rcpt -> real server, all extensions on, SMTPUTF8 on/off): ALL strings of <=%d symbols over %q as EnvelopeID, Auth (with '@d.example' appended), ORCPT rfc822 and ORCPT utf-8; every scalar up to U+%X (and every UTF-8 length / surrogate boundary +-2) inside a utf-8 ORCPT; (c) option subsets: all 2^4 NOTIFY subsets in two orders, RET, SIZE {0,1,2^31}, SMTPUTF8, REQUIRETLS over implicit TLS, RRVS times with zones and with fractions of a second, a backend that refuses the first greeting with one of nine codes, Auth nil / empty / mailbox, address forms; every option subset with an Auth identity also as the second message of a caller that reuses ONE MailOptions value and one string behind Auth (no Reset in between); every option subset also as the SECOND transaction of a connection (after a transaction with other values and Reset, with and without a successful AUTH before it) and, for SIZE, against a server whose limit is exactly that size or one more. Distinct by construction; non-trivial = value in the judged domain (printable ASCII; for utf-8 ORCPT also DEL and non-ASCII; for Auth mailbox-shaped ASCII). Oracle: options seen by Session.Mail/Rcpt == options given; 'refused locally by the client' is fine, 'refused by the server' or 'different' is a violation inside the judged domain.", asciiLen, strLen, c14Alphabet, wireScalarsTo)
 	run.Assumptions = []string{"Body is excluded: the client documents that it always sends BODY=8BITMIME", "RRVS compared to the second", "values outside the judged domain (control characters, non-ASCII in xtext fields, non-mailbox Auth) are executed but only counted"}
 
 	// (a) codec pairs
@@ -472,6 +496,9 @@ func C14(tier string) int {
 							cases = append(cases, C14Case{Field: "mailopts", UTF8: true, TLS: rtls, Mail: m})
 							for _, route := range []string{"second", "auth-second"} {
 								cases = append(cases, C14Case{Field: "mailopts", UTF8: true, TLS: rtls, Mail: m, Route: route})
+							}
+							if auth != nil {
+								cases = append(cases, C14Case{Field: "mailopts", UTF8: true, TLS: rtls, Mail: m, Route: "same-pointer"})
 							}
 							if size > 0 {
 								// a server with a size limit: a declared size up to the limit is legal
